@@ -3,8 +3,8 @@
 -/
 import FcModel.Junit
 import FcModel.Spec.C04
-namespace Fc.Cli.Spec
-open Fc Fc.Cli
+namespace Fc.C04.Spec
+open Fc Fc.C04
 
 /-- the count attributes of a suite match its test cases (as a JUnit consumer classifies them) -/
 def countsOk (j : JSuite) : Bool :=
@@ -46,4 +46,4 @@ def unbacked (s : Suite) : Bool :=
   | none => false
   | some st => !suiteIsTrue st && s.tests.all fun t => suiteIsTrue t.status
 
-end Fc.Cli.Spec
+end Fc.C04.Spec
